@@ -204,6 +204,15 @@ def evaluate(t):
     except Exception:
         return None
 
+KNOWN_OUTSIDE_CSEG = 'macro-call-outside-code-segment'
+KNOWN_CALLS = [
+    (('.macro ed', '  .db @0, @0+1', '.endm', '.eseg', '  ed 5', '  ed 7', '.cseg', '  nop'), ('', '', '', '.eseg', '  .db 5, (5)+1', '  .db 7, (7)+1', '.cseg', '  nop')),
+    (('.macro rsv', '  .byte @0', '.endm', '.dseg', 'buf: rsv 4', 'b2: rsv 2', '.cseg', '  ldi r16, low(b2)'), ('', '', '', '.dseg', 'buf: .byte 4', 'b2: .byte 2', '.cseg', '  ldi r16, low(b2)')),
+]
+
+def matches_known(k, v):
+    return k.get('id') == KNOWN_OUTSIDE_CSEG and v.get('key') == 'expand' and v.get('source') in k.get('inputs', [])
+
 def run(tier, seed, model_ok):
     rng = random.Random(seed)
     n = 1500 if tier == 'quick' else 20000
@@ -237,6 +246,16 @@ def run(tier, seed, model_ok):
          ['', '', '', '', '', '', '', '', '', '  nop', '.eseg', '  .db 7, 8', '.dseg', 'b2: .byte 2', '.cseg', '  ldi r17, low(b2)', '.eseg', '  .db 9']),
         (['.macro ee', '.eseg', '.endm', '.macro outer', '  nop', '  ee', '.endm', '  outer', '  .dw 0x1234', '.cseg', '  ret'], ['', '', '', '', '', '', '', '  nop\n.eseg', '  .dw 0x1234', '.cseg', '  ret']),
     ]
+    fixed += [
+        # calls whose argument lists differ but read alike once the commas are dropped: each call gets ITS arguments
+        (['.macro fetch', '  sts @1, @0', '.endm', '  fetch r16, 5', '  fetch r1, 65', '  fetch r16, 5'], ['', '', '', '  sts 5, r16', '  sts 65, r1', '  sts 5, r16']),
+        (['.macro pair', '  .db @0, @1', '.endm', '  pair 1, 23', '  pair 12, 3', '  pair 1, 2+3', '  pair 1, 2', '  pair 12, 3'], ['', '', '', '  .db 1, 23', '  .db 12, 3', '  .db 1, (2+3)', '  .db 1, 2', '  .db 12, 3']),
+        (['.macro tri', '  .db @0, @1, @2', '.endm', '  tri 1, 2, 34', '  tri 1, 23, 4', '  tri 12, 3, 4'], ['', '', '', '  .db 1, 2, 34', '  .db 1, 23, 4', '  .db 12, 3, 4']),
+        # a body that ends in EEPROM, then data lines of odd length in the caller: no padding there
+        (['.macro toee2', '  nop', '.eseg', '.endm', '  toee2', '  .db 1, 2, 3', '  .db "abc"', '  .db 7', '.cseg', '  .db 9', '  ret'], ['', '', '', '', '  nop\n.eseg', '  .db 1, 2, 3', '  .db "abc"', '  .db 7', '.cseg', '  .db 9', '  ret']),
+    ]
+    # a macro called while the data or EEPROM segment is current (recorded finding: the call is not expanded there)
+    fixed += [(list(p_), list(e_)) for p_, e_ in KNOWN_CALLS]
     must_fail = [['  nosuchmacro r1, 2'], ['.macro m', '  ldi r16, @1', '.endm', '  m 5'], ['.macro m', '  mov @0, r1', '.endm', '  m']]
     trip = []
     allp = progs + fixed
